@@ -76,6 +76,8 @@ def pure_mode_cond(c):
 def presentational(t):
     """one of the alternatives a mode may choose between: the flat / structured rendering of an
     observation (or of its shape), or one of the two action-space classes"""
+    if t[0] == "attr" and t[2] == "shape":
+        return presentational(t[1])           # numpy_flat().shape / numpy().shape
     if t[0] == "mcall" and t[2] in PRES_METHODS:
         return True
     if t[0] == "call" and t[1].split(".")[-1] in PRES_METHODS and ":" in t[1]:
